@@ -22,6 +22,8 @@ fn annotations(i: usize) -> Option<Vec<String>> {
         7 => Some(vec!["#[derive(AsnType, Debug, Clone, Decode, Encode, PartialEq, Eq, Hash, PartialOrd)] #[cfg_attr(any(), verif_marker)]".into()]),
         // derives named by a path / with an underscore next to a required one (the path resolves: `core::cmp::PartialOrd`)
         8 => Some(vec!["#[derive(AsnType, Debug, Clone, Decode, Encode, PartialEq, Eq, Hash, core::cmp::PartialOrd)]".into(), "#[derive(Debug, core::cmp::Ord)]".into()]),
+        // only the derives rasn needs: nothing else (no Eq, no Hash) may appear on any type of any module
+        9 => Some(vec!["#[derive(AsnType, Debug, Clone, Decode, Encode, PartialEq)]".into()]),
         // a required derive (Debug, Clone) and a non-required one (Eq) named on two lines: each must come out once
         _ => Some(vec!["#[derive(AsnType, Debug, Clone, Decode, Encode, PartialEq, Eq, Hash)]".into(), "#[derive(Debug, Clone, Eq, PartialOrd)]".into()]),
     }
@@ -50,7 +52,7 @@ fn all_points() -> Vec<Point> {
     let mut v = vec![];
     for flags in 0..16u8 {
         for imports in 0..3 {
-            for ann in 0..9 {
+            for ann in 0..10 {
                 v.push(Point { flags, imports, ann });
             }
         }
@@ -73,7 +75,7 @@ fn edges(points: &[Point]) -> Vec<(Point, Point, &'static str)> {
             }
         }
         if p.ann == 0 {
-            for a in 1..9 {
+            for a in 1..10 {
                 e.push((*p, Point { ann: a, ..*p }, "type_annotations"));
             }
         }
@@ -318,6 +320,25 @@ fn judge(coord: &str, lo: &Point, hi: &Point, a: &Items, b: &Items) -> Vec<(Stri
                             }
                         }
                     }
+                    // and nothing else arrives: the derive set is the required derives, the requested ones and what the backend adds
+                    // on its own under the default setting (`Copy` on some types), which is the part of the default-setting item
+                    // that the default annotation does not name
+                    if lo.ann == 0 {
+                        if let (Some(ann), Some(base)) = (annotations(hi.ann), a.get(k)) {
+                            const DEFAULT_LIST: [&str; 8] = ["AsnType", "Debug", "Clone", "Decode", "Encode", "PartialEq", "Eq", "Hash"];
+                            let last = |d: &str| d.replace(' ', "").rsplit("::").next().unwrap_or("").to_string();
+                            let mut allowed: BTreeSet<String> = REQUIRED.iter().map(|r| r.to_string()).collect();
+                            allowed.extend(base.attrs.derives.iter().map(|d| last(d)).filter(|d| !DEFAULT_LIST.contains(&d.as_str())));
+                            for el in &ann {
+                                if let Some(list) = el.split_once("derive(").map(|x| x.1.split(')').next().unwrap_or("")) {
+                                    allowed.extend(list.split(',').map(|d| last(d.trim())).filter(|d| !d.is_empty()));
+                                }
+                            }
+                            if let Some(d) = it.attrs.derives.iter().map(|d| last(d)).find(|d| !allowed.contains(d)) {
+                                out.push(("unrequested-derive".into(), format!("{}: derive `{d}` is neither required, nor requested by the type_annotations setting, nor added by the backend under the default setting", describe(k, it))));
+                            }
+                        }
+                    }
                     // no derive at all may be emitted twice (conflicting impls)
                     if let Some(d) = it.attrs.derives.iter().find(|d| !REQUIRED.contains(&d.as_str()) && it.attrs.derives.iter().filter(|x| x == d).count() > 1) {
                         out.push(("derive-duplicated".into(), format!("{}: derive `{d}` is emitted more than once", describe(k, it))));
@@ -437,7 +458,7 @@ pub fn run(ctx: &Ctx) -> Report {
         let mut v: Vec<Point> = all.iter().filter(|p| p.imports == 0 && p.ann == 0).cloned().collect();
         for f in [0u8, 5, 10, 15] {
             for i in 0..3 {
-                for a in 0..9 {
+                for a in 0..10 {
                     v.push(Point { flags: f, imports: i, ann: a });
                 }
             }
